@@ -477,7 +477,7 @@ pub fn subs() -> Vec<Box<dyn DynSub>> {
 }
 
 pub fn run(ctx: &Ctx) -> EvidenceMeta {
-  let max_len = 400;
+  let max_len = if ctx.is_child() { 140 } else { 400 };
   let jobs: Vec<Job> = vec![
     Box::new(|| ctx.enumerate(&ByLength, length_cases(max_len), true)),
     Box::new(|| ctx.enumerate(&Cuts, cut_cases(), true)),
